@@ -70,6 +70,22 @@ def _run_variant(v, repo_root):
         shutil.rmtree(tmp, ignore_errors=True)
 
 
+def _run_seed(seed_dir, prop, repo_root):
+    """Apply a kept seeded change (a unified diff) to a scratch copy of src/ and run the property's check on it."""
+    tmp = Path(tempfile.mkdtemp(prefix="pyhfsa-seed-", dir=_scratch_root()))
+    try:
+        shutil.copytree(Path(repo_root) / "src", tmp / "src", ignore=shutil.ignore_patterns("__pycache__"))
+        pr = subprocess.run(["patch", "-p1", "-s", "-i", str(seed_dir / "patch.diff")], cwd=str(tmp), capture_output=True, text=True)
+        if pr.returncode != 0:
+            return {"seed": seed_dir.name, "status": "skipped", "why": "patch does not apply to this tree"}
+        cmd = [sys.executable, "-m", "pyhfsa", "check", prop, "--tier", "quick", "--repo", str(tmp), "--no-evidence"]
+        r = subprocess.run(cmd, cwd=str(VERIF), capture_output=True, text=True, timeout=300)
+        fired = sorted({ln.split()[1] for ln in r.stdout.splitlines() if ln.strip().startswith("rule ")})
+        return {"seed": seed_dir.name, "status": "detected" if r.returncode == 1 else ("analysis-error" if r.returncode == 2 else "not detected by this check"), "rules": fired}
+    finally:
+        shutil.rmtree(tmp, ignore_errors=True)
+
+
 def _pub(v):
     return {"id": v["id"], "prop": v["prop"], "expect": v["expect"], "rule": v.get("rule", ""), "what": v.get("what", "")}
 
@@ -98,6 +114,29 @@ def run_audit(props, repo_root, jobs=16, into_evidence=False, verbose=False):
             if r["status"] == "MISMATCH" and verbose:
                 print(r.get("detail", ""))
     print(f"AUDIT summary: {len(results)} variants, {n_ok} as expected, {n_skip} skipped, {len(n_bad)} mismatching, {time.time() - t0:.1f}s")
+    # kept seeded changes (confirmed property-breaking patches, see /verif/seeded): replayed on scratch copies
+    seed_results = {}
+    seeded_root = VERIF / "seeded"
+    if seeded_root.is_dir():
+        jobs_ = []
+        for d in sorted(seeded_root.iterdir()):
+            if not (d / "patch.diff").exists() or not (d / "meta.json").exists():
+                continue
+            try:
+                meta = json.loads((d / "meta.json").read_text())
+            except Exception:
+                continue
+            targets = {meta.get("property")} | set((meta.get("caught_by") or {}).keys())
+            for p in props:
+                if p in targets:
+                    jobs_.append((d, p))
+        with ThreadPoolExecutor(max_workers=jobs) as ex:
+            for (d, p), res in zip(jobs_, ex.map(lambda dp: _run_seed(dp[0], dp[1], repo_root), jobs_)):
+                seed_results.setdefault(p, []).append(res)
+                if verbose or res["status"] != "detected":
+                    print(f"SEED  {res['status']:28s} {p} {res['seed']} rules={res.get('rules')}")
+        n_det = sum(1 for rs in seed_results.values() for r in rs if r["status"] == "detected")
+        print(f"SEED summary: {sum(len(v) for v in seed_results.values())} replays, {n_det} detected")
     if into_evidence:
         for p in props:
             f = VERIF / "evidence" / f"{p}.json"
@@ -112,6 +151,7 @@ def run_audit(props, repo_root, jobs=16, into_evidence=False, verbose=False):
                     "firing_variants": [f"{r['id']}: {r['what']} -> {r['fired']}" for r in mine if r["expect"] == "fire" and r["status"] == "ok"][:60],
                     "silent_variants": [f"{r['id']}: {r['what']}" for r in mine if r["expect"] == "silent" and r["status"] == "ok"][:40],
                 }
+                ev["coverage"]["seeded_changes_replayed"] = seed_results.get(p, [])
                 ev["wall_s"] = round(ev.get("wall_s", 0) + (time.time() - t0), 3)
                 f.write_text(json.dumps(ev, indent=1))
     return 0 if not n_bad else 3
